@@ -355,6 +355,17 @@ func oracle(c Case, ctx *pbt.Ctx) error {
 	ctx.Label(fmt.Sprintf("pool:%d", c.Pool))
 	switch class {
 	case sb.Timeout:
+		// every generated program terminates (the reference interpreter ran it to the end; typical VM time
+		// is well under a second). One expiry of the 60 s deadline may be the machine; a second run in a
+		// fresh worker that also exceeds 180 s is a hang: a promise that never settles or a generator
+		// that never finishes.
+		worker.Close()
+		worker = sb.New("debug")
+		res2 := worker.Do(req, 180*time.Second)
+		if c2, d2 := sb.Classify(res2); c2 == sb.Timeout {
+			ctx.Label("hang_confirmed")
+			return fmt.Errorf("program does not terminate (no answer within 60 s and, in a fresh worker, within 180 s); the reference interpreter runs it to the end. Goroutines at the second deadline:\n%s", clip(d2, 3000))
+		}
 		pbt.Inconclusive()
 		return nil
 	case sb.Fatal, sb.GoPanic:
@@ -447,7 +458,11 @@ func minimize(c Case) Case {
 	if c.Prog == nil || os.Getenv("C15_NOMIN") != "" {
 		return c
 	}
-	want := failClass(oracle(c, &pbt.Ctx{}))
+	first := oracle(c, &pbt.Ctx{})
+	if first != nil && strings.Contains(first.Error(), "does not terminate") {
+		return c // every reduction step would cost two deadlines
+	}
+	want := failClass(first)
 	if want == "" || want == "GENERATOR" {
 		return c
 	}
